@@ -207,6 +207,28 @@ func exec(w *sw, p *pool, op string) {
 		run = func() string { return heap.VerifC04Dump(h) }
 	case "V":
 		run = func() string { return b(heap.VerifC04Verify(h)) }
+	case "IB":
+		// bulk insert: <i> IB a cnt mult mod vbase : for j in 0..cnt-1 Insert(((a+j)*mult) % mod, vbase+a+j)
+		run = func() string {
+			st, cnt, mult, mod, vb := a(2), a(3), a(4), a(5), a(6)
+			for j := 0; j < cnt; j++ {
+				h.Insert(((st+j)*mult)%mod, vb+st+j)
+			}
+			return "-"
+		}
+	case "DB":
+		// bulk delete: <i> DB cnt : cnt Deletes, results joined by ';'
+		run = func() string {
+			cnt := a(2)
+			var sb strings.Builder
+			for j := 0; j < cnt; j++ {
+				if j > 0 {
+					sb.WriteByte(';')
+				}
+				sb.WriteString(kv(h.Delete()))
+			}
+			return sb.String()
+		}
 	case "M":
 		j := a(2)
 		mh, ok := h.(heap.MergeableHeap[int, int])
@@ -256,7 +278,7 @@ func runCase(w *sw, head string, ops []string) {
 		sizes = append(sizes, z)
 	}
 	w.Begin("%s", head)
-	p := newPool(h[0], h[1], sizes)
+	p := newPool(strings.TrimSuffix(h[0], "*"), h[1], sizes)
 	for _, op := range ops {
 		exec(w, p, op)
 	}
@@ -619,6 +641,107 @@ func mergeHistories(w *sw, r *rng.R) {
 	_ = r
 }
 
+// big: heaps of 3000..6000 entries, driven with bulk operations (chunks of a few hundred inserts
+// or deletes) so that the trace and the shrinker stay small; these cases (impl marked with '*')
+// are judged by the extracted bag-specification acceptor only (the list-based exact model is
+// quadratic at this size).  (1) insert a shuffled permutation (or a duplicate-heavy sequence),
+// delete everything; (2) hover around the sizes 2207, 3571 and 5778 (phi^16, phi^17, phi^18, where
+// the Fibonacci heap's maxDegree() steps 16 -> 17 -> 18 -> 19) with interleaved insert/delete runs.
+func gcd(a, b int) int {
+	for b != 0 {
+		a, b = b, a%b
+	}
+	return a
+}
+
+func big(w *sw, r *rng.R, thorough bool) {
+	const chunk = 250
+	bulkIns := func(from, cnt, mult, mod, vbase int) []string {
+		var ops []string
+		for cnt > 0 {
+			c := cnt
+			if c > chunk {
+				c = chunk
+			}
+			ops = append(ops, fmt.Sprintf("0 IB %d %d %d %d %d", from, c, mult, mod, vbase))
+			from += c
+			cnt -= c
+		}
+		return ops
+	}
+	bulkDel := func(cnt int) []string {
+		var ops []string
+		for cnt > 0 {
+			c := cnt
+			if c > chunk {
+				c = chunk
+			}
+			ops = append(ops, fmt.Sprintf("0 DB %d", c))
+			cnt -= c
+		}
+		return ops
+	}
+	coprime := func(mod int) int {
+		for {
+			m := r.Range(mod/3, mod-1)
+			if gcd(m, mod) == 1 {
+				return m
+			}
+		}
+	}
+	n := 0
+	nextOrient := func() string { n++; return orients[n%len(orients)] }
+	// (1) fill with a permutation / duplicate-heavy keys, then drain
+	for _, impl := range impls {
+		for _, N := range []int{6000, 3200} {
+			for _, dup := range []bool{false, true} {
+				if dup && N == 6000 && !thorough {
+					continue
+				}
+				mod := N
+				if dup {
+					mod = N / 16
+				}
+				ops := bulkIns(0, N, coprime(mod), mod, 10000)
+				ops = append(ops, "0 S", "0 V", "0 P", "0 D", "0 P", "0 S")
+				ops = append(ops, bulkDel(N/2)...)
+				ops = append(ops, "0 P", "0 S", "0 V", fmt.Sprintf("0 CK %d", mod-1), "0 CV 10000")
+				ops = append(ops, bulkDel(N/2+5)...)
+				ops = append(ops, "0 E", "0 S", "0 P")
+				runCase(w, header(impl+"*", nextOrient(), []int{n % 5}), ops)
+			}
+		}
+	}
+	// (2) hover around the thresholds
+	for _, impl := range impls {
+		for _, T := range []int{2207, 3571, 5778} {
+			if impl != "FIB" && T == 3571 && !thorough {
+				continue
+			}
+			mod := 7919 // prime > every size used
+			mult := coprime(mod)
+			ops := bulkIns(0, T+40, mult, mod, 20000)
+			ops = append(ops, "0 S", "0 D", "0 P", "0 V")
+			from := T + 40
+			for round := 0; round < 4; round++ {
+				ops = append(ops, bulkDel(90)...)
+				ops = append(ops, "0 P", "0 S")
+				ops = append(ops, bulkIns(from, 90, mult, mod, 20000)...)
+				from += 90
+				ops = append(ops, "0 D", "0 P", "0 I 0 1", "0 P", "0 D", "0 S")
+			}
+			// single steps across the threshold
+			for k := 0; k < 45; k++ {
+				ops = append(ops, "0 D", "0 P")
+			}
+			ops = append(ops, "0 V")
+			ops = append(ops, bulkDel(T+100)...)
+			ops = append(ops, "0 E", "0 S")
+			runCase(w, header(impl+"*", nextOrient(), []int{0}), ops)
+		}
+	}
+}
+
 // shapes: adversarial structures: merges of heaps of chosen sizes (carry chains, three trees of one
 // order), power-of-two fills, resize boundaries of the binary heap for every initial size.
 func shapes(w *sw, r *rng.R, thorough bool) {
@@ -739,7 +862,7 @@ func shapes(w *sw, r *rng.R, thorough bool) {
 }
 
 func main() {
-	mode := flag.String("mode", "exhaustive", "exhaustive|random|shapes")
+	mode := flag.String("mode", "exhaustive", "exhaustive|random|shapes|big")
 	tier := flag.String("tier", "quick", "quick|thorough")
 	replay := flag.String("replay", "", "case file to re-execute")
 	flag.Parse()
@@ -795,6 +918,8 @@ func main() {
 		} else {
 			random(w, r, 700, 1200)
 		}
+	case "big":
+		big(w, rng.FromEnv(406), thorough)
 	case "shapes":
 		shapes(w, rng.FromEnv(404), thorough)
 		mergeHistories(w, rng.FromEnv(405))
